@@ -520,7 +520,7 @@ func (p *Program) Reach(roots ...*ssa.Function) []*ssa.Function {
 		work = work[1:]
 		out = append(out, fn)
 		add := func(g *ssa.Function) {
-			if g != nil && !seen[g] && g.Blocks != nil && pkgs[pkgOf(g)] {
+			if g != nil && !seen[g] && g.Blocks != nil && (pkgs[pkgOf(g)] || pkgOf(g) == "" && g.Synthetic != "") {
 				seen[g] = true
 				work = append(work, g)
 			}
